@@ -376,7 +376,7 @@ def run_property(pid, tier, seed, replay=None):
         if cases:
             differential(ctx, spec, cases, label="generated")
         if spec.get("scaled") and not any(b[0] == "harness-scaled-build" for b in broken):
-            cases = gen_cases(ctx, seed, tier, scaled=True, extra=["scaled"])
+            cases = gen_cases(ctx, seed, tier, scaled=True, extra=["scaled", str(spec["scaled"])])
             if cases:
                 differential(ctx, spec, cases, scaled=True, label="scaled")
         if broken and not ctx.violations:
